@@ -473,6 +473,7 @@ public:
 
         [[maybe_unused]] const int ret = starpu_init(NULL);
         assert(ret == 0);
+        increaseNumberOfKernels(static_cast<int>(starpu_worker_get_count()));
         starpu_pause();
     }
 
